@@ -33,7 +33,9 @@ import (
 // One family per key (no repository reads a list key with Get). Normalisations, each
 // taken from how callers treat the answers: GetList/GetAllHash "not found" == empty;
 // GetExpiration compared by error class only; SetExpiration on an absent key not
-// compared (callers only touch existing keys); SetList / CAS / SetExpiration never get
+// compared (callers only touch existing keys); SetList(empty) leaves memory present-empty
+// and Redis absent: GetList answers agree ([]), Exists on a list key is compared only when
+// the list is non-empty, and the key's lifetime is not tracked; SetList / CAS / SetExpiration never get
 // a sub-second ttl (Redis EXPIRE has whole-second resolution; callers pass seconds+).
 //
 // Time: memory reads the real clock, miniredis a virtual one. A "Sleep" step sleeps
@@ -206,7 +208,11 @@ func c13dApply(s FullStorage, op c13dOp) (a c13dAns) {
 	case "CleanupExpired":
 		err = s.CleanupExpired()
 	case "SetList":
-		err = s.SetList(op.Key, append([]any(nil), op.List...), op.TTL)
+		var l []any
+		if op.List != nil {
+			l = append([]any{}, op.List...)
+		}
+		err = s.SetList(op.Key, l, op.TTL)
 	case "GetList":
 		var l []any
 		l, err = s.GetList(op.Key)
@@ -285,7 +291,7 @@ type c13dPick struct {
 
 var c13dFamilies = map[byte][]c13dPick{
 	's': {{"Set", 14}, {"Get", 10}, {"Delete", 4}, {"Exists", 6}, {"SetNX", 12}, {"CAS", 16}, {"SetExpiration", 7}, {"GetExpiration", 4}},
-	'l': {{"SetList", 6}, {"GetList", 10}, {"Append", 14}, {"Remove", 10}, {"Delete", 3}},
+	'l': {{"SetList", 8}, {"GetList", 10}, {"Append", 14}, {"Remove", 10}, {"Delete", 3}, {"Exists", 4}},
 	'h': {{"SetHash", 12}, {"GetHash", 8}, {"GetAllHash", 6}, {"DeleteHash", 5}, {"Delete", 2}},
 	'c': {{"Incr", 8}, {"IncrBy", 5}, {"Delete", 2}},
 }
@@ -351,7 +357,13 @@ func c13dGenerate(r *rand.Rand, nops int, mode c13dMode) []c13dOp {
 		case "SetExpiration":
 			op.TTL = ttl2
 		case "SetList":
-			n := 1 + r.Intn(3) // an empty list is not representable in Redis: not generated
+			// 30 %: an empty list (nil or empty slice), typically over an existing non-empty one
+			n := 1 + r.Intn(3)
+			if z := r.Intn(100); z < 15 {
+				n, op.List = 0, nil
+			} else if z < 30 {
+				n, op.List = 0, []any{}
+			}
 			for i := 0; i < n; i++ {
 				op.List = append(op.List, str())
 			}
@@ -380,11 +392,12 @@ func c13dGenerate(r *rand.Rand, nops int, mode c13dMode) []c13dOp {
 // ---- execution ----
 
 type c13dTrack struct {
-	short   bool      // current lifetime is the short ttl
-	c       time.Time // memory-side call instant of the operation that set it
-	slept   bool      // a Sleep step happened since
-	taint   bool
-	zeroTTL bool // current lifetime was given explicitly as ttl 0
+	short    bool      // current lifetime is the short ttl
+	c        time.Time // memory-side call instant of the operation that set it
+	slept    bool      // a Sleep step happened since
+	taint    bool
+	zeroTTL  bool // current lifetime was given explicitly as ttl 0
+	nonEmpty bool // list/hash keys: last compared read-back was a non-empty container
 }
 
 type c13dStats struct {
@@ -516,6 +529,18 @@ func c13RunDiffHistory(t *testing.T, run *vk.Run, st *c13dStats, hidx int, ops [
 				compare = false
 			}
 		}
+		// Exists on a list key: an EMPTY list is "present" in memory and "absent" in Redis
+		// (Redis cannot hold an empty list) - this difference exists on the clean tree and
+		// no caller asks Exists on a list key; it is tolerated only while both sides read
+		// the list as empty, otherwise Exists must agree.
+		if op.Kind == "Exists" && op.Key[0] == 'l' {
+			la, lb, cert := both(c13dOp{Kind: "GetList", Key: op.Key}, k)
+			if cert && !k.taint && la.Err == "ok" && lb.Err == "ok" && la.V == "[]" && lb.V == "[]" {
+				loc["exists_on_empty_list_tolerated"]++
+				both(op, k)
+				continue
+			}
+		}
 		cMem := time.Now()
 		a, b, certain := both(op, k)
 		if !overwrite && (k.taint || !certain) {
@@ -563,7 +588,19 @@ func c13RunDiffHistory(t *testing.T, run *vk.Run, st *c13dStats, hidx int, ops [
 		// lifetime bookkeeping from the (agreed) outcome
 		switch op.Kind {
 		case "Set", "SetList":
+			wasNonEmpty := k.nonEmpty
 			*k = c13dTrack{short: op.TTL == mode.Short, c: cMem, zeroTTL: op.TTL == 0}
+			if op.Kind == "SetList" && len(op.List) == 0 {
+				// memory: present-and-empty with this lifetime; Redis: no key (a later append
+				// creates one with the default lifetime). Same GetList answer, different lifetime.
+				k.zeroTTL = false
+				if k.short {
+					k.taint = true
+				}
+				if wasNonEmpty {
+					loc["setlist_empty_over_nonempty"]++
+				}
+			}
 		case "SetNX", "CAS":
 			if a.B {
 				*k = c13dTrack{short: op.TTL == mode.Short, c: cMem, zeroTTL: op.TTL == 0}
@@ -602,6 +639,9 @@ func c13RunDiffHistory(t *testing.T, run *vk.Run, st *c13dStats, hidx int, ops [
 				map[string]any{"readback": rop.String(), "op_returned_on_both": a.render()})
 			k.taint = true
 			continue
+		}
+		if op.Key[0] == 'l' || op.Key[0] == 'h' {
+			k.nonEmpty = b2.V != "[]" && b2.V != "{}"
 		}
 		// an emptied list/hash does not exist in Redis any more: a later append creates a
 		// new key with the default lifetime there - not a "ttl 0" key any longer
@@ -658,7 +698,7 @@ func TestVerifC13Differential(t *testing.T) {
 	vk.Quiet()
 	run := vk.Start(t, "C13", "differential")
 	defer run.Finish()
-	run.Rule("seeded histories of 30-80 operations in the repositories' operation/value subset (scalar string keys: Set/Get/Delete/Exists/SetNX/CAS/SetExpiration/GetExpiration; list keys; hash keys; counter keys; ttl in {0, short, 1 h}; 7 of 8 histories: short = 40 ms for Set/SetNX only and sleep 60 ms; 1 of 8: short = 1 s for every ttl-carrying operation incl. SetList/CAS/SetExpiration and sleep 1.2 s) executed step by step on memory storage and on Redis storage over miniredis (each sleep mirrored by FastForward); answers and an immediate read-back compared after normalisation; finally +48 h on miniredis: ttl-0 keys must survive; distinct = (previous op > op, ttl-argument class, key class)")
+	run.Rule("seeded histories of 30-80 operations in the repositories' operation/value subset (scalar string keys: Set/Get/Delete/Exists/SetNX/CAS/SetExpiration/GetExpiration; list keys; hash keys; counter keys; ttl in {0, short, 1 h}; 7 of 8 histories: short = 40 ms for Set/SetNX only and sleep 60 ms; 1 of 8: short = 1 s for every ttl-carrying operation incl. SetList/CAS/SetExpiration and sleep 1.2 s) executed step by step on memory storage and on Redis storage over miniredis (each sleep mirrored by FastForward); answers and an immediate read-back compared after normalisation (SetList with nil/empty over existing lists included: GetList must answer [] on both; the clean tree's present-empty (memory) vs absent (Redis) difference is tolerated only for Exists on a list both sides read as empty); finally +48 h on miniredis: ttl-0 keys must survive; distinct = (previous op > op, ttl-argument class, key class)")
 	nh := run.Pick(200, 4000)
 	st := &c13dStats{distinct: map[string]struct{}{}, counts: map[string]int64{}}
 	master := run.Rand("diff")
@@ -702,5 +742,6 @@ func TestVerifC13Differential(t *testing.T) {
 	run.Floor("cas_on_ttl0_key", 20)
 	run.Floor("cas_with_ttl0_swapped_on_both", 5)
 	run.Floor("create_after_expiry", 5)
+	run.Floor("setlist_empty_over_nonempty", 10)
 	run.Floor("ttl0_keys_checked_after_48h", int64(nh)/4)
 }
